@@ -259,19 +259,21 @@ var (
 	elpsInst *elps
 )
 
-func getElps() *elps {
-	elpsOnce.Do(func() {
-		rt := vcommon.NewRuntime(vcommon.Cfg{})
-		e := &elps{rt: rt, env: rt.Env, fn: map[string]*lisp.LVal{}}
-		for _, name := range []string{"json:dump-string", "json:dump-bytes", "json:dump-message", "json:message-bytes", "json:load-string", "json:load-bytes", "equal?"} {
-			f := rt.Env.GetFun(lisp.Symbol(name))
-			if f.Type != lisp.LFun {
-				panic(fmt.Sprintf("cannot look up %s: %v", name, f))
-			}
-			e.fn[name] = f
+func newElps() *elps {
+	rt := vcommon.NewRuntime(vcommon.Cfg{})
+	e := &elps{rt: rt, env: rt.Env, fn: map[string]*lisp.LVal{}}
+	for _, name := range []string{"json:dump-string", "json:dump-bytes", "json:dump-message", "json:message-bytes", "json:load-string", "json:load-bytes", "json:load-message", "equal?", "append!", "assoc!", "dissoc!"} {
+		f := rt.Env.GetFun(lisp.Symbol(name))
+		if f.Type != lisp.LFun {
+			panic(fmt.Sprintf("cannot look up %s: %v", name, f))
 		}
-		elpsInst = e
-	})
+		e.fn[name] = f
+	}
+	return e
+}
+
+func getElps() *elps {
+	elpsOnce.Do(func() { elpsInst = newElps() })
 	return elpsInst
 }
 
